@@ -45,8 +45,21 @@ class WFSA:
     def dim(self):
         return len(self.states)
 
+    # number of plain instance attributes set by __init__ (anything beyond them
+    # in the instance dict is a cached derived machine or quantity)
+    _N_FIELDS = 6
+
+    def _invalidate(self):
+        "Forget cached derived machines; they depend on the states, arcs and weights."
+        d = self.__dict__
+        if len(d) > self._N_FIELDS:
+            for k in [k for k in d if isinstance(getattr(type(self), k, None), cached_property)]:
+                del d[k]
+
     def add_state(self, q):
+        # every mutator (add_arc, add_I, add_F, set_*) goes through here
         self.states.add(q)
+        self._invalidate()
 
     def add_arc(self, i, a, j, w):
         self.add_state(i)
